@@ -8,6 +8,7 @@ import (
 	"strconv"
 	"strings"
 	"sync"
+	"syscall"
 	"time"
 
 	"verif/harness/internal/histfs"
@@ -23,20 +24,27 @@ import (
 // them.  Oracle O-diff: exit status, output bytes, stdout and stderr equal those
 // of the base environment.
 
-var c13Inputs = []struct{ id, src string }{
-	{"imports-blank-alias-conv", "//go:build convergen\n\npackage p\n\nimport (\n\t\"example.com/m/ext\"\n\to \"example.com/m/ext/other\"\n\t_ \"example.com/m/ext/v2\"\n)\n\ntype S struct {\n\tA int\n\tB string\n\tC int\n}\n\ntype D struct {\n\tA ext.EInt\n\tB string\n\tC o.OInt\n}\n\n// :typecast\ntype Convergen interface {\n\t// :conv ext.Itoa A B\n\tConv(*S) *D\n}\n"},
-	{"two-blank-same-name", "//go:build convergen\n\npackage p\n\nimport (\n\t_ \"example.com/m/ext/other\"\n\t_ \"example.com/m/ext/v2\"\n)\n\ntype S struct{ A int }\n\ntype D struct{ A int }\n\ntype Convergen interface {\n\t// :conv ext.Conv A\n\tConv(*S) *D\n}\n"},
-	{"blank-shadowing-named", "//go:build convergen\n\npackage p\n\nimport (\n\t\"example.com/m/ext\"\n\t_ \"example.com/m/ext/v2\"\n)\n\nvar _ ext.EInt\n\ntype S struct{ A int }\n\ntype D struct{ A string }\n\ntype Convergen interface {\n\t// :conv ext.Itoa A\n\tConv(*S) *D\n}\n"},
-	{"alias-equals-other-base-name", "//go:build convergen\n\npackage p\n\nimport (\n\te \"example.com/m/ext\"\n\text \"example.com/m/ext/v2\"\n)\n\nvar _ e.EInt\n\ntype S struct{ A int }\n\ntype D struct{ A int }\n\ntype Convergen interface {\n\t// :conv ext.Conv A\n\tConv(*S) *D\n}\n"},
-	{"four-generated-converters", "//go:build convergen\n\npackage p\n\ntype A1 struct{ V int }\ntype A2 struct{ V int }\ntype B1 struct{ V int }\ntype B2 struct{ V int }\ntype C1 struct{ V int }\ntype C2 struct{ V int }\ntype E1 struct{ V int }\ntype E2 struct{ V int }\n\ntype S struct {\n\tA *A1\n\tB *B1\n\tC *C1\n\tE *E1\n}\n\ntype D struct {\n\tA *A2\n\tB *B2\n\tC *C2\n\tE *E2\n}\n\ntype Convergen interface {\n\t// :conv ConvA A\n\t// :conv ConvB B\n\t// :conv ConvC C\n\t// :conv ConvE E\n\tTop(*S) *D\n\tConvA(*A1) *A2\n\tConvB(*B1) *B2\n\tConvC(*C1) *C2\n\tConvE(*E1) *E2\n}\n"},
-	{"two-blank-same-base-name", "//go:build convergen\n\npackage p\n\nimport (\n\t_ \"example.com/m/ext/a/conv\"\n\t_ \"example.com/m/ext/b/conv\"\n)\n\ntype S struct{ A int }\n\ntype D struct{ A string }\n\ntype Convergen interface {\n\t// :conv conv.Itoa A\n\tConv(*S) *D\n}\n"},
-	{"imported-hook", "//go:build convergen\n\npackage p\n\nimport (\n\te \"example.com/m/ext\"\n\t_ \"example.com/m/ext/other\"\n)\n\ntype Convergen interface {\n\t// :postprocess e.HookSDErr\n\tConv(*e.S) (*e.D, error)\n}\n"},
-	{"two-interfaces", cliInputs[2].src},
-	{"three-interfaces", "//go:build convergen\n\npackage p\n\nimport \"example.com/m/ext\"\n\ntype S struct {\n\tA int\n\tL []int\n}\n\ntype D struct {\n\tA ext.EInt\n\tL []ext.EInt\n}\n\n// :typecast\ntype Convergen interface {\n\tZeta(*S) *D\n\tAlpha(*S) *D\n}\n\n// :convergen\ntype B interface {\n\tMid(*S) *D\n}\n\nvar Between = 1\n\n// :convergen\n// :typecast\ntype A interface {\n\t// :recv s\n\tLast(*S) *D\n}\n"},
-	{"rejected", "//go:build convergen\n\npackage p\n\nimport _ \"example.com/m/ext\"\n\ntype S struct{ A int }\n\ntype D struct{ A int }\n\ntype Convergen interface {\n\t// :conv ext.Missing A\n\tConv(*S) *D\n}\n"},
+var c13Inputs = []struct {
+	id, src string
+	args    []string // further CLI arguments (before the input)
+}{
+	{id: "imports-blank-alias-conv", src: "//go:build convergen\n\npackage p\n\nimport (\n\t\"example.com/m/ext\"\n\to \"example.com/m/ext/other\"\n\t_ \"example.com/m/ext/v2\"\n)\n\ntype S struct {\n\tA int\n\tB string\n\tC int\n}\n\ntype D struct {\n\tA ext.EInt\n\tB string\n\tC o.OInt\n}\n\n// :typecast\ntype Convergen interface {\n\t// :conv ext.Itoa A B\n\tConv(*S) *D\n}\n"},
+	{id: "two-blank-same-name", src: "//go:build convergen\n\npackage p\n\nimport (\n\t_ \"example.com/m/ext/other\"\n\t_ \"example.com/m/ext/v2\"\n)\n\ntype S struct{ A int }\n\ntype D struct{ A int }\n\ntype Convergen interface {\n\t// :conv ext.Conv A\n\tConv(*S) *D\n}\n"},
+	{id: "blank-shadowing-named", src: "//go:build convergen\n\npackage p\n\nimport (\n\t\"example.com/m/ext\"\n\t_ \"example.com/m/ext/v2\"\n)\n\nvar _ ext.EInt\n\ntype S struct{ A int }\n\ntype D struct{ A string }\n\ntype Convergen interface {\n\t// :conv ext.Itoa A\n\tConv(*S) *D\n}\n"},
+	{id: "alias-equals-other-base-name", src: "//go:build convergen\n\npackage p\n\nimport (\n\te \"example.com/m/ext\"\n\text \"example.com/m/ext/v2\"\n)\n\nvar _ e.EInt\n\ntype S struct{ A int }\n\ntype D struct{ A int }\n\ntype Convergen interface {\n\t// :conv ext.Conv A\n\tConv(*S) *D\n}\n"},
+	{id: "four-generated-converters", src: "//go:build convergen\n\npackage p\n\ntype A1 struct{ V int }\ntype A2 struct{ V int }\ntype B1 struct{ V int }\ntype B2 struct{ V int }\ntype C1 struct{ V int }\ntype C2 struct{ V int }\ntype E1 struct{ V int }\ntype E2 struct{ V int }\n\ntype S struct {\n\tA *A1\n\tB *B1\n\tC *C1\n\tE *E1\n}\n\ntype D struct {\n\tA *A2\n\tB *B2\n\tC *C2\n\tE *E2\n}\n\ntype Convergen interface {\n\t// :conv ConvA A\n\t// :conv ConvB B\n\t// :conv ConvC C\n\t// :conv ConvE E\n\tTop(*S) *D\n\tConvA(*A1) *A2\n\tConvB(*B1) *B2\n\tConvC(*C1) *C2\n\tConvE(*E1) *E2\n}\n"},
+	{id: "two-blank-same-base-name", src: "//go:build convergen\n\npackage p\n\nimport (\n\t_ \"example.com/m/ext/a/conv\"\n\t_ \"example.com/m/ext/b/conv\"\n)\n\ntype S struct{ A int }\n\ntype D struct{ A string }\n\ntype Convergen interface {\n\t// :conv conv.Itoa A\n\tConv(*S) *D\n}\n"},
+	{id: "imported-hook", src: "//go:build convergen\n\npackage p\n\nimport (\n\te \"example.com/m/ext\"\n\t_ \"example.com/m/ext/other\"\n)\n\ntype Convergen interface {\n\t// :postprocess e.HookSDErr\n\tConv(*e.S) (*e.D, error)\n}\n"},
+	{id: "two-interfaces", src: cliInputs[2].src},
+	{id: "three-interfaces", src: "//go:build convergen\n\npackage p\n\nimport \"example.com/m/ext\"\n\ntype S struct {\n\tA int\n\tL []int\n}\n\ntype D struct {\n\tA ext.EInt\n\tL []ext.EInt\n}\n\n// :typecast\ntype Convergen interface {\n\tZeta(*S) *D\n\tAlpha(*S) *D\n}\n\n// :convergen\ntype B interface {\n\tMid(*S) *D\n}\n\nvar Between = 1\n\n// :convergen\n// :typecast\ntype A interface {\n\t// :recv s\n\tLast(*S) *D\n}\n"},
+	{id: "rejected", src: "//go:build convergen\n\npackage p\n\nimport _ \"example.com/m/ext\"\n\ntype S struct{ A int }\n\ntype D struct{ A int }\n\ntype Convergen interface {\n\t// :conv ext.Missing A\n\tConv(*S) *D\n}\n"},
 	// :typecast on a pair that is convertible but has no renderable conversion target ([]byte): the tool warns on stderr
-	{"typecast-unsupported-warning", "//go:build convergen\n\npackage p\n\ntype S struct {\n\tToken string\n\tRunes string\n\tA     int\n}\n\ntype D struct {\n\tToken []byte\n\tRunes []rune\n\tA     int\n}\n\n// :typecast\ntype Convergen interface {\n\tConv(*S) *D\n}\n"},
-	{"no-match-warnings", "//go:build convergen\n\npackage p\n\ntype S struct{ A int }\n\ntype D struct {\n\tA int\n\tX int\n\tY string\n}\n\ntype Convergen interface {\n\tConv(*S) *D\n\tConv2(*S) *D\n}\n"},
+	{id: "typecast-unsupported-warning", src: "//go:build convergen\n\npackage p\n\ntype S struct {\n\tToken string\n\tRunes string\n\tA     int\n}\n\ntype D struct {\n\tToken []byte\n\tRunes []rune\n\tA     int\n}\n\n// :typecast\ntype Convergen interface {\n\tConv(*S) *D\n}\n"},
+	// a converter interface without methods next to a working one: nothing of the (random) placeholder may surface
+	{id: "empty-converter-interface", src: "//go:build convergen\n\npackage p\n\ntype S struct{ A int }\n\ntype D struct{ A int }\n\n// :convergen\ntype Scaffold interface{}\n\ntype Convergen interface {\n\tConv(*S) *D\n}\n"},
+	// a run that fails while WRITING (the output directory does not exist): its diagnostics are diagnostics too
+	{id: "output-directory-missing", src: "//go:build convergen\n\npackage p\n\ntype S struct{ A int }\n\ntype D struct{ A int }\n\ntype Convergen interface {\n\tConv(*S) *D\n}\n", args: []string{"-out", "gen/missing/setup.gen.go"}},
+	{id: "no-match-warnings", src: "//go:build convergen\n\npackage p\n\ntype S struct{ A int }\n\ntype D struct {\n\tA int\n\tX int\n\tY string\n}\n\ntype Convergen interface {\n\tConv(*S) *D\n\tConv2(*S) *D\n}\n"},
 }
 
 var c13Markers = []string{
@@ -105,6 +113,7 @@ func (e *Env) c13Run(base, tag string, in int, env c13Env, countFile string) c13
 		spelled = abs
 	}
 	var args, extra []string
+	args = append(args, c13Inputs[in].args...)
 	if env.Log == 1 {
 		args = append(args, "-log")
 	}
@@ -128,7 +137,11 @@ func (e *Env) c13Run(base, tag string, in int, env c13Env, countFile string) c13
 	case 2:
 		extra = append(extra, "GOPACKAGE=p", "GOLINE=3")
 	}
-	extra = append(extra, "HOME="+filepath.Join(root, []string{"home1", "home2"}[env.Home]), "TMPDIR="+filepath.Join(root, []string{"tmp1", "tmp2"}[env.Tmp]))
+	tmpDir := filepath.Join(root, []string{"tmp1", "tmp2", ""}[env.Tmp])
+	if env.Tmp == 2 {
+		tmpDir = c13OtherDeviceTmp // a directory on ANOTHER file system than the tree (rename across devices fails)
+	}
+	extra = append(extra, "HOME="+filepath.Join(root, []string{"home1", "home2"}[env.Home]), "TMPDIR="+tmpDir)
 	res := e.Runner.Run(filepath.Join(root, pl.cwd), args, extra...)
 	ob := c13Obs{Exit: res.Exit, Stdout: res.Stdout, Crashed: res.Crashed() || res.TimedOut}
 	// a message that echoes the path as given legitimately follows the spelling: one token for every spelling
@@ -147,6 +160,17 @@ func (e *Env) c13Run(base, tag string, in int, env c13Env, countFile string) c13
 }
 
 var reAddress = regexp.MustCompile(`\b0x[0-9a-f]{8,}\b`)
+
+// c13OtherDeviceTmp is a scratch directory on a different device than the scratch root ("" if none is available).
+var c13OtherDeviceTmp string
+
+func deviceOf(path string) (uint64, bool) {
+	var st syscall.Stat_t
+	if err := syscall.Stat(path, &st); err != nil {
+		return 0, false
+	}
+	return uint64(st.Dev), true
+}
 
 func factorial(n int) int {
 	f := 1
@@ -201,10 +225,30 @@ func init() {
 		if len(e.Build.UnownedMapRanges) > 0 {
 			e.Rep.Assume("map iteration order is NOT owned for: " + strings.Join(e.Build.UnownedMapRanges, ", ") + " (free-running repetition only for these)")
 		}
-		e.Rep.Rule("12 inputs chosen for import-table and marker exposure (blank+alias imports with clashing package names, :conv pkg.F, imported hook, 2 and 3 converter interfaces, a rejected input, no-match warnings) x " +
+		e.Rep.Rule("14 inputs chosen for import-table and marker exposure (blank+alias imports with clashing package names, :conv pkg.F, imported hook, 2 and 3 converter interfaces, a rejected input, no-match warnings) x " +
 			"environment: marker shape (9, via the nanoid seam) x map-iteration order (every permutation of every executed range-over-map loop for <= 4 keys, one deviation at a time; two deviations in thorough; via the verifseam rewrite) complete, " +
-			"and cwd/path spelling (10 places) x GOFILE vs argument x HOME x TMPDIR x prior content of the output path {none, longer stale file} x GOPACKAGE {unset, another package's name, the setup package's name} within 2 deviations of the base environment, plus the complete product prior output x GOPACKAGE x {package with, without an ordinary sibling file} x GOFILE; oracle O-diff: exit status, output bytes, stdout and stderr (scratch path spellings tokenised) identical to the base environment, and no memory address (0x…) anywhere in them; " +
+			"and cwd/path spelling (10 places) x GOFILE vs argument x HOME x TMPDIR (incl. one on another file system than the tree) x prior content of the output path {none, longer stale file} x GOPACKAGE {unset, another package's name, the setup package's name} within 2 deviations of the base environment, plus the complete product prior output x GOPACKAGE x {package with, without an ordinary sibling file} x GOFILE; oracle O-diff: exit status, output bytes, stdout and stderr (scratch path spellings tokenised) identical to the base environment, and no memory address (0x…) anywhere in them; " +
 			"non-trivial = environment differing from base in marker or map order on an input with >= 2 imports or >= 2 interfaces")
+		// a TMPDIR on another file system than the tree
+		if rootDev, ok := deviceOf(e.WS.Root); ok {
+			for _, cand := range []string{"/tmp", "/var/tmp", "/dev/shm", "/run"} {
+				d, err := os.MkdirTemp(cand, "verif-c13-tmp-")
+				if err != nil {
+					continue
+				}
+				if dev, ok := deviceOf(d); ok && dev != rootDev {
+					c13OtherDeviceTmp = d
+					break
+				}
+				os.RemoveAll(d)
+			}
+		}
+		if c13OtherDeviceTmp != "" {
+			defer os.RemoveAll(c13OtherDeviceTmp)
+			e.Rep.Set("tmpdir_on_other_device", c13OtherDeviceTmp)
+		} else {
+			e.Rep.Assume("no writable directory on a second file system was found: TMPDIR is only varied within the scratch tree's device")
+		}
 		type job struct {
 			in  int
 			env c13Env
@@ -244,7 +288,11 @@ func init() {
 			// native (unowned) map order with a pinned marker: the seams must not be what makes it deterministic
 			jobs = append(jobs, job{in, c13Env{Marker: 1, MapOrder: ""}})
 			// environment: <= 2 deviations over (place, gofile, home, tmp, marker{base, other}, map order{asc, desc})
-			rad := []int{len(c13Places), 2, 2, 2, 2, 2, 2, 3}
+			tmpR := 2
+			if c13OtherDeviceTmp != "" {
+				tmpR = 3
+			}
+			rad := []int{len(c13Places), 2, 2, tmpR, 2, 2, 2, 3}
 			dev := 2
 			deviate := func(d []int) {
 				env := c13Env{Place: d[0], GoFile: d[1], Home: d[2], Tmp: d[3], Marker: 1 + d[4]*4, MapOrder: []string{"asc", "desc"}[d[5]], Prior: d[6], GoPkg: d[7]}
@@ -311,8 +359,11 @@ func init() {
 				if j.env.Home != 0 {
 					devs = append(devs, "home")
 				}
-				if j.env.Tmp != 0 {
+				if j.env.Tmp == 1 {
 					devs = append(devs, "tmp")
+				}
+				if j.env.Tmp == 2 {
+					devs = append(devs, "tmp-on-other-device")
 				}
 				if j.env.Prior != 0 {
 					devs = append(devs, "prior-output")
